@@ -467,4 +467,37 @@ theorem gen_intXml_all (k : IntKind) (v : Option Int) (b : Bool) :
   · exact ⟨_, intXml_int64 v b, rfl⟩
   · exact ⟨_, intXml_uint64 v b, rfl⟩
 
+/-! ### `json_encode` of the six integer built-ins below 64 bits: generated = hand model -/
+
+theorem intJson_sbyte (fs : Int → Str) (v : Option Int) : Gen.int_json_encode_sbyte ⟨v⟩ = jsonEncode fs (.int .sbyte v) := by
+  rw [jsonEncode]
+  cases v <;> simp [Gen.int_json_encode_sbyte, is64, pyFormat, PyFormat.fmt]
+
+theorem intJson_byte (fs : Int → Str) (v : Option Int) : Gen.int_json_encode_byte ⟨v⟩ = jsonEncode fs (.int .byte v) := by
+  rw [jsonEncode]
+  cases v <;> simp [Gen.int_json_encode_byte, is64, pyFormat, PyFormat.fmt]
+
+theorem intJson_int16 (fs : Int → Str) (v : Option Int) : Gen.int_json_encode_int16 ⟨v⟩ = jsonEncode fs (.int .int16 v) := by
+  rw [jsonEncode]
+  cases v <;> simp [Gen.int_json_encode_int16, is64, pyFormat, PyFormat.fmt]
+
+theorem intJson_uint16 (fs : Int → Str) (v : Option Int) : Gen.int_json_encode_uint16 ⟨v⟩ = jsonEncode fs (.int .uint16 v) := by
+  rw [jsonEncode]
+  cases v <;> simp [Gen.int_json_encode_uint16, is64, pyFormat, PyFormat.fmt]
+
+theorem intJson_int32 (fs : Int → Str) (v : Option Int) : Gen.int_json_encode_int32 ⟨v⟩ = jsonEncode fs (.int .int32 v) := by
+  rw [jsonEncode]
+  cases v <;> simp [Gen.int_json_encode_int32, is64, pyFormat, PyFormat.fmt]
+
+theorem intJson_uint32 (fs : Int → Str) (v : Option Int) : Gen.int_json_encode_uint32 ⟨v⟩ = jsonEncode fs (.int .uint32 v) := by
+  rw [jsonEncode]
+  cases v <;> simp [Gen.int_json_encode_uint32, is64, pyFormat, PyFormat.fmt]
+
+/-- C10's `int32_valid` restated for the generated encoder: what `UAInt32.json_encode` — as the source reads now — returns for a
+    natural number is its decimal text, and that text is one JSON number token -/
+theorem gen_int32_valid (n : Nat) :
+    Gen.int_json_encode_int32 ⟨some (n : Int)⟩ = .ok (some (showNat n)) ∧ parseJson (showNat n) = some (.num (showNat n)) := by
+  rw [intJson_int32 (fun _ => [])]
+  exact C10.int32_valid _ .int32 rfl n
+
 end Opcua.Tie
